@@ -42,6 +42,67 @@ class GProv(Prov):
         return Prov.of_rvalue(self, r, depth, line)
 
 
+def _gprov_of_local(self, l, depth=0):
+    """Prov.of_local, with the identity of crate-local callees kept on call roots (5th element) so that a private helper that merely
+    builds a value can be replaced by what it builds."""
+    import nf as _nf
+    body = self.body
+    if 1 <= l <= body["arg_count"]:
+        return {("arg", l)}
+    if depth > getattr(self, "max_depth", 12):
+        return {("local", l)}
+    ds = self.defs.get(l)
+    if not ds:
+        return {("local", l)}
+    out = set()
+    for d in ds:
+        if d[0] == "rv":
+            out |= self.of_rvalue(d[1], depth + 1, d[2])
+        else:
+            t = d[1]
+            f = mirq.callee_of(t)
+            nm = f["name"] if f else "<indirect>"
+            if f is not None and self.transparent(f):
+                out |= self.of_operand(t["args"][0]["op"], depth + 1)
+            else:
+                args = tuple(frozenset(self.of_operand(a["op"], depth + 1)) for a in t["args"])
+                cid = _nf._callee_id(f)
+                cb = None
+                if cid is not None and depth < 10:
+                    cb = _private_value_helper(self.facts, cid)
+                if cb is not None and cb["key"] != body["key"]:
+                    rr = GProv(cb, self.facts).of_local(0, depth + 2)
+                    if not any(x[0] == "local" for x in rr):
+                        out |= set(_nf.subst(frozenset(rr), {i + 1: set(a) for i, a in enumerate(args)}))
+                        continue
+                out.add(("call", nm, f.get("trait") if f else None, args))
+    return out
+
+
+_PVH = {}
+
+
+def _private_value_helper(facts, cid):
+    """The body of a private free function of the crate that only builds a value from its arguments (no loops, no `&mut` parameters):
+    `fn not_ident_part(c, span) -> E { LabelError::expected_found([..], Some(MaybeRef::Val(c)), span) }`."""
+    k = (id(facts), cid[0])
+    if k in _PVH:
+        return _PVH[k]
+    res = None
+    cands = [b for b in facts.bodies if b.get("path") == cid[0] and b["kind"] != "Closure"]
+    if len(cands) == 1:
+        b = cands[0]
+        if not b.get("public") and not b.get("impl_trait") and not b.get("in_trait") and not b.get("impl_self_adt") \
+                and not mirq.loops(b) and len(b["blocks"]) <= 24 \
+                and not any(b["locals"][i]["ty"].startswith("&mut") for i in range(1, b["arg_count"] + 1)):
+            res = b
+    _PVH[k] = res
+    return res
+
+
+GProv.of_local = _gprov_of_local
+
+
 class GPathProv(GProv):
     def __init__(self, body, facts, path):
         self.body = body
@@ -106,7 +167,10 @@ class Fmt:
         if k == "array":
             return "[%s]" % ", ".join(_join(a, F) for a in r[1])
         if k == "bin":
-            return "%s(%s, %s)" % (r[1], _join(r[2], F), _join(r[3], F))
+            a_, b_ = _join(r[2], F), _join(r[3], F)
+            if r[1] in ("Eq", "Ne", "Add", "Mul", "BitAnd", "BitOr", "BitXor") and b_ < a_:
+                a_, b_ = b_, a_        # commutative: one operand order
+            return "%s(%s, %s)" % (r[1], a_, b_)
         if k == "un":
             if r[1] == "Not" and len(r[2]) == 1:
                 x = next(iter(r[2]))
